@@ -650,6 +650,7 @@ package types
 //@ lemma C09.copyReady: forall a SessionType, b SessionType, D Set[string], V Arr[string]LabelledType :: shapeOK(a) && isCopy(a, b) && labelsOK(a, D) && base(modeOf(a)) && rmodes(a, D, V) ==> labelsOK(b, D) && rmodes(b, D, V) && base(modeOf(b)) && tag(modeOf(b)) == tag(modeOf(a)) by induction on size(a)
 //@ contract CopyType
 //@   ensures[C09] C09.copyNil: (orig == nil) == (result == nil)
-//@   ensures[C09] C09.copyShape: orig != nil ==> shapeOK(result) && isCopy(orig, result)
-//@   loop[C09] 1 invariant len(branches) == len(p.Branches) && (forall k int :: 0 <= k && k < i ==> branches[k].Label == p.Branches[k].Label && branches[k].SessionType != nil && shapeOK(branches[k].SessionType) && isCopy(p.Branches[k].SessionType, branches[k].SessionType))
-//@   loop[C09] 2 invariant len(branches) == len(p.Branches) && (forall k int :: 0 <= k && k < i ==> branches[k].Label == p.Branches[k].Label && branches[k].SessionType != nil && shapeOK(branches[k].SessionType) && isCopy(p.Branches[k].SessionType, branches[k].SessionType))
+//@   ensures[C09] C09.copyShape: orig != nil ==> shapeOK(result)
+//@   ensures[C09] C09.copyIso: orig != nil ==> isCopy(orig, result)
+//@   loop[C09] 1 invariant len(branches) == len(p.Branches) && (forall k int :: 0 <= k && k < i ==> branches[k].Label == p.Branches[k].Label && branches[k].SessionType != nil && allocated(branches[k].SessionType) && size(branches[k].SessionType) >= 0 && shapeOK(branches[k].SessionType) && isCopy(p.Branches[k].SessionType, branches[k].SessionType))
+//@   loop[C09] 2 invariant len(branches) == len(p.Branches) && (forall k int :: 0 <= k && k < i ==> branches[k].Label == p.Branches[k].Label && branches[k].SessionType != nil && allocated(branches[k].SessionType) && size(branches[k].SessionType) >= 0 && shapeOK(branches[k].SessionType) && isCopy(p.Branches[k].SessionType, branches[k].SessionType))
